@@ -2,7 +2,9 @@ package main
 
 import (
 	"bytes"
+	"errors"
 	"fmt"
+	"time"
 
 	"github.com/lxzan/gws"
 )
@@ -337,8 +339,74 @@ func runC05(c *Ctx) error {
 			}
 			c.count(fmt.Sprintf("late %d %s", si, api), false, "api="+api+"-after-close")
 		}
+		c05ReadLoopOutput(c, si, spec)
 	}
 	return nil
+}
+
+// c05ReadLoopOutput: what the READ side of gws writes (the reply to a peer Close, the Close frame after a violation by
+// the peer or after a transport fault with a long error text) must parse like everything else.
+func c05ReadLoopOutput(c *Ctx, si int, spec connSpec) {
+	m := spec.Server
+	long := make([]byte, 300)
+	for i := range long {
+		long[i] = byte('a' + i%26)
+	}
+	type scen struct {
+		name    string
+		stream  []byte
+		readErr error
+	}
+	scens := []scen{
+		{"peer-close-long-reason", encodeFrame(frameSpec{Fin: true, Opcode: 8, Masked: m, Key: [4]byte{3, 1, 4, 1}, Payload: append([]byte{0x0f, 0xa0}, long[:123]...), DeclLen: -1}), nil},
+		{"peer-close-1000", dataFrame(8, true, m, []byte{0x03, 0xe8}), nil},
+		{"rsv2", encodeFrame(frameSpec{Fin: true, Rsv2: true, Opcode: 2, Masked: m, Payload: []byte("x"), DeclLen: -1}), nil},
+		{"bad-opcode", encodeFrame(frameSpec{Fin: true, Opcode: 5, Masked: m, Payload: []byte("x"), DeclLen: -1}), nil},
+		{"invalid-utf8", dataFrame(1, true, m, []byte{0xff, 0xfe}), nil},
+		{"transport-error-long-text", dataFrame(2, true, m, []byte("before the fault")), errors.New(string(long))},
+		{"transport-error-126", nil, errors.New(string(long[:126]))},
+		{"transport-error-123", nil, errors.New(string(long[:123]))},
+	}
+	for _, sc := range scens {
+		h := &recHandler{}
+		conn, tap, err := spec.open(h)
+		if err != nil {
+			panic(err)
+		}
+		if sc.stream != nil {
+			tap.feed(sc.stream)
+		}
+		if sc.readErr != nil {
+			tap.mu.Lock()
+			tap.failRead, tap.failReadErr = tap.nRead, sc.readErr
+			if sc.stream != nil {
+				tap.failRead++
+			}
+			tap.mu.Unlock()
+		} else {
+			tap.setEOF()
+		}
+		tag := fmt.Sprintf("spec=%d server=%v read-loop output %s", si, spec.Server, sc.name)
+		replay := map[string]any{"spec": fmt.Sprintf("%+v", spec), "scenario": sc.name}
+		if !runWithTimeout(10*time.Second, conn.ReadLoop) {
+			c.oracleFail("read loop did not return ["+tag+"]", "read-hang", replay)
+			continue
+		}
+		w := tap.written()
+		replay["wire"] = fmt.Sprintf("%x", head(w, 160))
+		fs, rest, perr := parseFrames(w)
+		switch {
+		case perr != nil || len(rest) != 0:
+			c.oracleFail(fmt.Sprintf("bytes written by the read loop are not whole frames (%v, %d trailing) [%s]", perr, len(rest), tag), "undecodable", replay)
+		default:
+			for i, f := range fs {
+				if p := wfOutbound(f, spec.Server); p != "" {
+					c.oracleFail(fmt.Sprintf("frame %d written by the read loop: %s [%s]", i, p, tag), "frame-not-wf", replay)
+				}
+			}
+		}
+		c.count(tag, len(w) > 0, "api=readloop-"+sc.name)
+	}
 }
 
 func head(b []byte, n int) []byte {
